@@ -8,6 +8,21 @@ NOTE = ("Trusted base: rustc nightly front end + MIR (E1 facts come from the rea
         "necessary conditions on /repo's current source; does not execute goml programs or emitted Go.")
 
 CLAIMED = {
+ "C05": dict(
+   text="Static decision of the scoping discipline in the two places that implement lexical scope: the scope constructs are derived "
+        "from where the typer opens scopes; for each the AST->HIR resolver must resolve the scoped children in a child environment "
+        "(per arm for alternatives); lookup is newest-first and locals precede globals; scope open/close calls are paired in one "
+        "block with no early exit; per-arm pattern binding is scoped inside the loop. Necessary conditions for lexical scoping; "
+        "acceptance/rejection of concrete programs is not executed.",
+   technique="static analysis: syntax-tree rules over match arms (environment threading), pairing on all exits, sibling agreement resolver/typer",
+   ref="DESIGN.md section 4, C05"),
+ "C15": dict(
+   text="Static decision of the artifact discipline: hash view = interface fields (table agreement), no serde attribute hides data of "
+        "reachable types, no body type is reachable from the hashed exports, every deserialised artifact is validated (hash + "
+        "format/ABI constants) before it escapes, link compares every (package, dependency) pin and rejects before merging, pins come "
+        "from the loaded unit, and every core field read by the linker is validated. Histories of edits are not executed.",
+   technique="static analysis: table agreement + type reachability (MIR ADT facts) + must-validate-before-use on resolved deserialisation sites + loop-shape/taint rule",
+   ref="DESIGN.md section 4, C15"),
  "C13": dict(
    text="Static decision that no nondeterminism source can reach compiler output: every resolved iteration over a std/im "
         "HashMap/HashSet is followed to its sink (order-free / sorted / ordered=violation), read_dir listings and "
